@@ -92,6 +92,16 @@ _CMP = {
 
 ANALOG_PIN_RE = re.compile(r"^A\d+$")
 
+# --- verification hook (add-only) -------------------------------------------
+# With REDUINO_VERIF=1 in the environment at import time, every source line that
+# the parser drops without emitting a node or raising is recorded here as
+# (scope, depth, stripped line, reason).  With the guard off nothing is recorded
+# and behaviour is unchanged.  Readers are expected to clear the list themselves.
+import os as _verif_os
+
+_VERIF_ON = _verif_os.environ.get("REDUINO_VERIF") == "1"
+_verif_skipped: List[Tuple[str, int, str, str]] = []
+
 
 def _escape_string_literal(value: str) -> str:
     """Escape a Python string literal into a C/C++ literal body."""
@@ -2434,6 +2444,8 @@ def _parse_simple_lines(
             or RE_IMPORT_BUTTON.match(line)
             or RE_IMPORT_LCD.match(line)
         ):
+            if _VERIF_ON:
+                _verif_skipped.append((scope, depth, line, "import"))
             i += 1
             continue
 
@@ -2497,12 +2509,16 @@ def _parse_simple_lines(
         m = RE_TARGET_CALL.match(line)
         if m:
             ctx["target_port"] = m.group(1)
+            if _VERIF_ON:
+                _verif_skipped.append((scope, depth, line, "target"))
             i += 1
             continue
 
         inline_matches = list(RE_TARGET_INLINE.finditer(line))
         if inline_matches:
             ctx["target_port"] = inline_matches[-1].group(1)
+            if _VERIF_ON:
+                _verif_skipped.append((scope, depth, line, "target-inline"))
             i += 1
             continue
 
@@ -4228,12 +4244,16 @@ def _parse_simple_lines(
                 and isinstance(expr_node.func, ast.Name)
                 and expr_node.func.id == "print"
             ):
+                if _VERIF_ON:
+                    _verif_skipped.append((scope, depth, line, "print"))
                 i += 1
                 continue
             try:
                 expr_c = _to_c_expr(line, vars, ctx)
             except Exception:
                 expr_c = None
+                if _VERIF_ON:
+                    _verif_skipped.append((scope, depth, line, "expr-untranslatable"))
             if expr_c is not None:
                 if (
                     isinstance(expr_node, ast.Call)
@@ -4279,10 +4299,15 @@ def _parse_simple_lines(
                         _eval_const(line, vars)
                     except Exception:
                         body.append(ExprStmt(expr=expr_c))
+                    else:
+                        if _VERIF_ON:
+                            _verif_skipped.append((scope, depth, line, "constant-expression"))
                 i += 1
                 continue
 
         # unknown → ignore
+        if _VERIF_ON:
+            _verif_skipped.append((scope, depth, line, "unknown"))
         i += 1
 
     return body
@@ -4335,11 +4360,15 @@ def parse(src: str) -> Program:
         m = RE_TARGET_CALL.match(text)
         if m:
             ctx["target_port"] = m.group(1)
+            if _VERIF_ON:
+                _verif_skipped.append(("setup", 0, text, "target"))
             i += 1; continue
 
         inline_matches = list(RE_TARGET_INLINE.finditer(text))
         if inline_matches:
             ctx["target_port"] = inline_matches[-1].group(1)
+            if _VERIF_ON:
+                _verif_skipped.append(("setup", 0, text, "target-inline"))
             i += 1; continue
 
         # ignore imports
@@ -4353,6 +4382,8 @@ def parse(src: str) -> Program:
             or RE_IMPORT_BUTTON.match(text)
             or RE_IMPORT_POTENTIOMETER.match(text)
         ):
+            if _VERIF_ON:
+                _verif_skipped.append(("setup", 0, text, "import"))
             i += 1; continue
 
         # controls
